@@ -138,5 +138,5 @@ func (t *transition) executeTxsConcurrent(level int, l module.TransactionList, c
 	if wvs := ctx.WorldVirtualState(); wvs != nil {
 		wvs.Realize()
 	}
-	return nil
+	return ec.Error()
 }
